@@ -1,0 +1,10 @@
+//go:build verif
+
+package fluentdforward
+
+// VerifSetChunkLimits overrides the chunk limits for the verification harness (build tag "verif" only) and returns the previous ones.
+func VerifSetChunkLimits(maxSizeBytes, maxRecords int) (int, int) {
+	prevBytes, prevRecords := chunkMaxSizeBytes, chunkMaxRecords
+	chunkMaxSizeBytes, chunkMaxRecords = maxSizeBytes, maxRecords
+	return prevBytes, prevRecords
+}
